@@ -81,6 +81,10 @@ def delivers(prog: Program, cls, pname: str, depth: int = 0) -> bool:
     if pname not in init.params:
         return False
     if pname in stored and _param_sources(init, stored[pname]) == {pname}:
+        why = lossy_conversion(init, stored[pname])
+        if why is not None:
+            delivers.why = f"{init.qualname}: {why}"
+            return False
         return True
     if super_call is not None:
         fwd = {k.arg: k.value for k in super_call.keywords if k.arg}
@@ -89,6 +93,9 @@ def delivers(prog: Program, cls, pname: str, depth: int = 0) -> bool:
                 if "__init__" in b.methods:
                     return delivers(prog, b, pname, depth + 1)
     return False
+
+
+delivers.why = ""
 
 
 def check_delivery(ck: Checker, prog: Program, rule: str, class_names, only=None, why: str = "", floor: int = 1):
@@ -104,8 +111,12 @@ def check_delivery(ck: Checker, prog: Program, rule: str, class_names, only=None
             if only is not None and p_ not in only:
                 continue
             n += 1
+            delivers.why = ""
             if delivers(prog, c, p_):
                 ck.ok(rule, init.qualname, f"constructor argument {p_} is stored")
+            elif delivers.why:
+                ck.violation(rule, init.qualname, f"constructor argument {p_}",
+                             f"`{p_}` handed to {cname}(...) is not stored as given ({delivers.why}){': ' + why if why else ''}", loc=init.loc())
             else:
                 ck.violation(rule, init.qualname, f"constructor argument {p_}",
                              f"`{p_}` handed to {cname}(...) is not stored (the base-class default is used instead){': ' + why if why else ''}",
@@ -151,6 +162,60 @@ def check_default_sharing(ck: Checker, prog: Program, rule: str, c, flagged=None
             ck.ok(rule, init.qualname, f"self.{fld}", detail=f"origin {_short(val)}")
 
 
+FLOATISH = ("float", "np.float64", "np.double", "numpy.float64", "numpy.double", "np.longdouble", "np.float_", "'float64'", "'float'", '"float64"', '"float"',
+            "object", "str", "bool", "complex", "np.complex128")
+LOSSY_CALLS = {"int", "round", "around", "rint", "floor", "ceil", "trunc", "fix", "sort", "sorted", "unique", "abs", "fabs", "absolute", "flip", "reversed", "set",
+               "frozenset", "clip", "mod", "fmod", "remainder"}
+
+
+def lossy_conversion(init, st: ast.Assign) -> Optional[str]:
+    """A reason when the value stored for a constructor argument goes through a conversion that can change it (integer / reduced
+    precision dtype, rounding, sorting, de-duplication, absolute value, wrapping) - through local temporaries as well."""
+    from ..dataflow import value_sources
+    _srcs, stmts = value_sources(init, st.value, st)
+    for node in [st.value] + [getattr(x, "value", x) for x in stmts]:
+        if node is None:
+            continue
+        for c in ast.walk(node):
+            if not isinstance(c, ast.Call):
+                continue
+            dt = kwarg(c, "dtype")
+            if dt is not None and unparse(dt) not in FLOATISH:
+                return f"`{norm_key(c, 70)}` converts to {unparse(dt)}"
+            nm = call_name(c)
+            if nm == "astype" and c.args and unparse(c.args[0]) not in FLOATISH:
+                return f"`{norm_key(c, 70)}` converts to {unparse(c.args[0])}"
+            if nm in LOSSY_CALLS and (isinstance(c.func, ast.Name) or (isinstance(c.func, ast.Attribute) and isinstance(c.func.value, ast.Name) and c.func.value.id in ("np", "numpy", "math"))):
+                return f"`{norm_key(c, 70)}` changes the value given"
+        for b in ast.walk(node):
+            if isinstance(b, ast.BinOp) and isinstance(b.op, (ast.Mod, ast.FloorDiv)):
+                return f"`{norm_key(b, 70)}` changes the value given"
+    return None
+
+
+def check_stored_as_given(ck: Checker, prog: Program, rule: str, class_names, fields, why: str):
+    """Result containers keep the vectors they are built from as given - same values, same order, same pairing of entries."""
+    n = 0
+    for cname in class_names:
+        c = prog.cls(cname)
+        init = c.find_method("__init__")
+        if init is None:
+            raise AnalysisError(f"{cname}.__init__ not found")
+        for fld in fields:
+            sts = [st for st in own_nodes(init.node) if isinstance(st, ast.Assign) and any(unparse(t) == f"self.{fld}" for t in st.targets)]
+            for st in sts:
+                n += 1
+                lossy = lossy_conversion(init, st)
+                srcs = _param_sources(init, st)
+                if lossy is not None:
+                    ck.violation(rule, init.qualname, f"self.{fld} [conversion]", f"`{fld}` is not stored as given: {lossy} ({why})", loc=init.loc(st))
+                elif srcs and fld in init.params and fld not in srcs:
+                    ck.violation(rule, init.qualname, f"self.{fld} [source]", f"`self.{fld}` is computed from {sorted(srcs)}, not from the argument `{fld}` ({why})", loc=init.loc(st))
+                else:
+                    ck.ok(rule, init.qualname, f"self.{fld} stored as given", nontrivial=False)
+    ck.floor(rule, n, 1, "stored vectors of result containers")
+
+
 def _param_sources(init, st: ast.Assign) -> Set[str]:
     """Constructor parameters the stored value is computed from (through local temporaries)."""
     from ..dataflow import value_sources
@@ -169,6 +234,8 @@ def run(ck: Checker, prog: Program, tier: str):
     check_constructors(ck, prog, classes, flagged)
     ck.guard(_r3, ck, prog, public)
     ck.guard(_r4, ck, prog)
+    ck.guard(check_type_agnostic_reads, ck, prog, "C15.R4")
+    ck.guard(_copy_hooks, ck, prog, classes)
     ck.extra["calls_resolved"] = eng.calls_resolved
 
 
@@ -208,6 +275,12 @@ def check_constructors(ck: Checker, prog: Program, classes, flagged=None):
             if p in stored:
                 srcs = _param_sources(init, stored[p])
                 ok_store = srcs == {p}
+                lossy = lossy_conversion(init, stored[p]) if ok_store else None
+                if lossy is not None:
+                    ck.violation("C15.R2", init.qualname, f"parameter {p} [conversion]",
+                                 f"constructor argument `{p}` is not stored as given: {lossy} (an object saved and loaded, or built from the same arguments, would differ)",
+                                 loc=init.loc(stored[p]))
+                    continue
             if ok_fwd or ok_store:
                 ck.ok("C15.R2", init.qualname, f"parameter {p}", nontrivial=True,
                       detail="forwarded to base" if ok_fwd else f"stored: {norm_key(stored[p], 70)}")
@@ -237,6 +310,70 @@ def check_constructors(ck: Checker, prog: Program, classes, flagged=None):
                              f"base parameters not supplied (fall back to defaults, the caller's value is lost): {missing}; unknown keywords: {wrong}",
                              loc=init.loc(super_call) if super_call is not None else init.loc())
         check_default_sharing(ck, prog, "C15.R5", c, flagged)
+
+
+NDARRAY_ONLY = {"size", "shape", "ndim", "dtype", "T", "astype", "flatten", "ravel", "reshape", "tolist", "nbytes", "itemsize", "flat", "squeeze", "min", "max", "sum",
+                "mean", "std", "any", "all", "argmin", "argmax", "round", "clip", "fill", "view", "item"}
+
+
+def check_type_agnostic_reads(ck: Checker, prog: Program, rule: str):
+    """A settings object read back from file holds lists where the constructor stored arrays: code that consumes settings may
+    not use array-only attributes directly on a settings field (it would work with fresh settings and fail - or differ - with
+    loaded ones)."""
+    n = 0
+    for mname in ("processing", "preprocessing", "cli", "window_rejection"):
+        mod = prog.modules.get(mname)
+        if mod is None:
+            continue
+        for g in prog.funcs.values():
+            if g.module is not mod or "settings" not in g.params:
+                continue
+            for x in own_nodes(g.node):
+                if isinstance(x, ast.Attribute) and isinstance(x.value, ast.Attribute) and isinstance(x.value.value, ast.Name) and x.value.value.id == "settings":
+                    n += 1
+                    if x.attr in NDARRAY_ONLY:
+                        ck.violation(rule, g.qualname, f"settings.{x.value.attr}.{x.attr}",
+                                     f"`{unparse(x)}` is only defined when `{x.value.attr}` is an ndarray: settings loaded from file hold a list there, so a reloaded "
+                                     f"settings object would not give what the original gives", loc=g.loc(x))
+    ck.ok(rule, "consumers of settings", f"{n} attribute reads of settings fields, none array-only", nontrivial=False)
+
+
+COPY_HOOKS = ("__deepcopy__", "__copy__", "__reduce__", "__reduce_ex__", "__getstate__", "__setstate__", "__getnewargs__", "__getnewargs_ex__")
+
+
+def _copy_hooks(ck: Checker, prog: Program, classes):
+    """copy.deepcopy of a settings object (process(), the CLI worker) must give an object that shares no mutable state with the
+    original.  Without copy hooks that is Python's own deep copy; a class that customises copying is examined with the effect
+    engine: whatever its hook returns may not reach storage of `self`."""
+    eng = engine(prog)
+    n_hooks = 0
+    for c in classes:
+        for h in COPY_HOOKS:
+            m = c.methods.get(h)
+            if m is None:
+                continue
+            n_hooks += 1
+            s = eng.summary(m)
+            alias = reachable_nonlocal(eng, s, s.ret) if not s.ret.is_bottom() else []
+            alias = [(p_, o) for (p_, o) in alias if o[0] == "P" and o[1] == 0]
+            shallow = [e for e in s.effects if e.kind in ("call-update",)]
+            upd = any(isinstance(x, ast.Call) and call_name(x) == "update" and isinstance(x.func, ast.Attribute) and unparse(x.func.value).endswith("__dict__")
+                      for x in ast.walk(m.node))
+            if alias or upd:
+                ck.violation("C15.R5", m.qualname, f"{h}", f"{c.name}.{h} hands the attributes of the original to the copy"
+                             + (f" ({'.'.join(alias[0][0]) or 'value'} is the original's)" if alias else " (`__dict__.update(self.__dict__)` copies references)")
+                             + ": a deep copy still shares nested state (fft_settings, lists) with its source", loc=m.loc())
+            else:
+                raise AnalysisError(f"{m.qualname}: a custom copy hook; whether its result is independent of the original is not analysed")
+    if n_hooks == 0:
+        ck.ok("C15.R5", "settings classes", "no custom copy / pickle hooks: copy.deepcopy copies every attribute recursively", nontrivial=False)
+
+
+def _stmt_of_node(n):
+    cur = n
+    while cur is not None and not isinstance(cur, ast.stmt):
+        cur = parent_of(cur)
+    return cur
 
 
 def _short(av) -> str:
@@ -338,7 +475,12 @@ class _Dispatch:
         if isinstance(x, ast.Compare) and len(x.ops) == 1:
             op = x.ops[0]
             if isinstance(op, (ast.In, ast.NotIn)):
-                item, cont = self.ev(x.left), self.ev(x.comparators[0])
+                item = self.ev(x.left)
+                c0 = x.comparators[0]
+                if isinstance(c0, (ast.Tuple, ast.List, ast.Set)) and all(isinstance(e_, ast.Constant) for e_ in c0.elts):
+                    r = item in [e_.value for e_ in c0.elts]          # membership in a display of literals
+                    return r if isinstance(op, ast.In) else not r
+                cont = self.ev(c0)
                 if cont in (("dict",), ("keys",)):
                     r = item in self.content
                     return r if isinstance(op, ast.In) else not r
@@ -468,6 +610,32 @@ def _r4(ck: Checker, prog: Program):
         ck.ok("C15.R4", save.qualname, norm_key(dumps[0]))
     else:
         ck.violation("C15.R4", save.qualname, "json.dump(self.attr_dict, f)", "save does not dump self.attr_dict", loc=save.loc())
+    # the file written is the file read: save, load and the dispatching reader open exactly the name they are given
+    from ..dataflow import reaching
+    n_open = 0
+    for g in (save, load, prog.func("object_io.read_settings_object_from_file"), prog.func("object_io.write_settings_object_to_file")):
+        pname = next((p_ for p_ in g.params if p_ in ("fname", "filename", "path", "file_name")), None)
+        for c in calls_in(g.node, "open"):
+            if not isinstance(c.func, ast.Name) or not c.args:
+                continue
+            n_open += 1
+            a0 = c.args[0]
+            same_name = False
+            if pname is not None:
+                try:
+                    from ..resolve import Resolver as _Res
+                    _r = _Res(prog, g, inline=False)
+                    v0 = _r.value(a0, _stmt_of_node(c))
+                    P0 = sp.Symbol(pname, real=True)
+                    same_name = not _r.multi and v0 in (P0, sp.Function("str")(P0), sp.Function("Path")(P0), sp.Function("fspath")(P0), sp.Function("PurePath")(P0))
+                except AnalysisError:
+                    same_name = False
+            if same_name:
+                ck.ok("C15.R4", g.qualname, f"opens the given `{pname}`", nontrivial=False)
+            else:
+                ck.violation("C15.R4", g.qualname, "file name", f"{g.qualname} opens `{unparse(a0)}`, which is not (or no longer) the name it was given: what one of "
+                             f"save / load / the reader writes, the others would not find", loc=g.loc(c))
+    ck.floor("C15.R4", n_open, 3, "open() calls of the settings I/O")
     # attr_dict: every name of self.attrs -> conv(getattr(self, name)); conv = per-value tolist inside dicts, tolist otherwise
     from ..pathtable import PathTable, literals, flatten_cases, Leaf
     from ..resolve import Resolver, canon
